@@ -7,7 +7,8 @@ from props.c03 import select_all, mk_table
 
 def gen_history(rng, feats):
     h = G.History()
-    tables, used, classes, checks = [], {}, set(), []
+    tables, used, checks = [], {}, []
+    classes = G.ClassSet(h)
     next_id = [1]
     next_tid = [1]
 
@@ -100,7 +101,7 @@ def gen_history(rng, feats):
     after = observe()
     checks.append((before, after))
     rust, coq = h.render()
-    return Case(rust, coq, "history", {"classes": sorted(classes), "checks": checks})
+    return Case(rust, coq, "history", dict(classes.meta(), checks=checks))
 
 
 def gen_cycles(rng, n_rows, cycles):
@@ -131,7 +132,7 @@ def oracle(case, il):
             if a >= len(segs):
                 return "output truncated"
             if segs[b] != segs[a]:
-                return "VACUUM changed a table: read %d gave %s, read %d gave %s" % (b, segs[b][:200], a, segs[a][:200])
+                return ("VACUUM changed a table: read %d gave %s, read %d gave %s" % (b, segs[b][:200], a, segs[a][:200]), a)
     if case.meta.get("sizes"):
         raw = case.meta.get("impl_raw", "").split(" | ")
         sz = []
